@@ -328,6 +328,9 @@ func runParseCase(c *Ctx, expr string, label string) parseOut {
 	}
 	if c.Prop == "C02" {
 		reuseParse(c, expr, o)
+		if c.Evals%4 == 0 {
+			checkParseEntryPoints(c, expr, o)
+		}
 	}
 	// text level: the model's trim + tokenizer + lexical analysis must produce the same initial tokens
 	if o.lexical {
@@ -370,11 +373,11 @@ func runParseCase(c *Ctx, expr string, label string) parseOut {
 }
 
 func replayParse(c *Ctx, op string) {
-	if replaySeq(c, op) {
+	if replaySeq(c, op) || replayEntry(c, op) {
 		return
 	}
 	f := strings.Fields(op)
-	if len(f) == 2 && f[0] == "expr" {
+	if len(f) == 2 && (f[0] == "expr" || f[0] == "lex") {
 		runParseCase(c, string(parseRunes(f[1])), "replay")
 	}
 }
